@@ -2,6 +2,7 @@ package rules
 
 import (
 	"fmt"
+	"go/token"
 	"go/types"
 	"sort"
 	"strings"
@@ -149,6 +150,7 @@ func oblConfig(prog *core.Program) obl.Config {
 		}
 		return okv
 	}
+	srcAddr := sourceAddrFields(prog)
 	return obl.Config{
 		SliceInvariant: func(t types.Type) (int64, bool, bool) {
 			for _, inv := range invs {
@@ -161,6 +163,11 @@ func oblConfig(prog *core.Program) obl.Config {
 		FieldNonNil: func(owner types.Type, idx int) bool {
 			for _, inv := range invs {
 				if inv.ok && types.Identical(owner, inv.shardT) && idx == inv.mapField {
+					return true
+				}
+			}
+			for _, sa := range srcAddr {
+				if types.Identical(owner, sa.owner) && idx == sa.idx {
 					return true
 				}
 			}
@@ -215,7 +222,7 @@ func reportObligations(rep *core.Report, rr *core.RuleRun, an *obl.Analyzer, fil
 			rr.OK(key, o.Pos, "discharged by: "+o.Assumed)
 			rep.Assume(o.Assumed)
 		default:
-			if reason, ok := assumed[key]; ok {
+			if reason, ok := lookupAssumed(assumed, key); ok {
 				rr.OK(key, o.Pos, "reviewed assumption: "+reason)
 				rep.Assume("reviewed assumption for " + key + ": " + reason)
 				continue
@@ -280,4 +287,152 @@ func alwaysFresh(prog *core.Program, fn *ssa.Function, depth int) bool {
 		}
 	})
 	return ok && n > 0
+}
+
+type ownerField struct {
+	owner types.Type
+	idx   int
+}
+
+// sourceAddrFields: struct fields of type *net.UDPAddr (the datagram's source address in the queued message types)
+// that are only ever filled from the address result of a (*net.UDPConn).ReadFromUDP call on its nil-error path, or
+// copied from the same field of another message. Loads of such a field yield a non-nil address (ReadFromUDP returns
+// a non-nil address together with a nil error); an explicitly zero message is not covered by the hook.
+func sourceAddrFields(prog *core.Program) []ownerField {
+	type cand struct {
+		of  ownerField
+		ok  bool
+		n   int
+		why string
+	}
+	cands := map[string]*cand{}
+	keyOf := func(t types.Type, i int) string { return fmt.Sprintf("%s#%d", t.String(), i) }
+	var fromRead func(v ssa.Value, at *ssa.BasicBlock, owner types.Type, idx int, seen map[ssa.Value]bool) bool
+	fromRead = func(v ssa.Value, at *ssa.BasicBlock, owner types.Type, idx int, seen map[ssa.Value]bool) bool {
+		if seen[v] {
+			return true
+		}
+		seen[v] = true
+		switch x := v.(type) {
+		case *ssa.Extract:
+			call, ok := x.Tuple.(*ssa.Call)
+			if !ok || x.Index != 1 || calleeName(call) != "(*net.UDPConn).ReadFromUDP" {
+				return false
+			}
+			errV := extractOf(call, 2)
+			return errV != nil && blockDominatedByNilEdge(at, errV)
+		case *ssa.Phi:
+			for _, e := range x.Edges {
+				if !fromRead(e, at, owner, idx, seen) {
+					return false
+				}
+			}
+			return true
+		case *ssa.UnOp:
+			if x.Op == token.MUL {
+				if fa, ok := x.X.(*ssa.FieldAddr); ok && fa.Field == idx && types.Identical(core.Deref(fa.X.Type()), owner) {
+					return true // copy of the same field of another message
+				}
+			}
+		}
+		return false
+	}
+	for _, fn := range prog.RepoFuncs() {
+		allInstrs(fn, func(ins ssa.Instruction) {
+			st, ok := ins.(*ssa.Store)
+			if !ok {
+				return
+			}
+			fa, ok := st.Addr.(*ssa.FieldAddr)
+			if !ok || !typeIs(core.Deref(st.Val.Type()), "net", "UDPAddr") {
+				return
+			}
+			owner := core.Deref(fa.X.Type())
+			if !isUDPMsgType(owner) {
+				return
+			}
+			k := keyOf(owner, fa.Field)
+			c := cands[k]
+			if c == nil {
+				c = &cand{of: ownerField{owner, fa.Field}, ok: true}
+				cands[k] = c
+			}
+			c.n++
+			if !fromRead(st.Val, st.Block(), owner, fa.Field, map[ssa.Value]bool{}) {
+				c.ok = false
+			}
+		})
+	}
+	var out []ownerField
+	for _, c := range cands {
+		if c.ok && c.n > 0 {
+			out = append(out, c.of)
+		}
+	}
+	return out
+}
+
+// blockDominatedByNilEdge: every path to b passes an If edge on which errV is nil.
+func blockDominatedByNilEdge(b *ssa.BasicBlock, errV ssa.Value) bool {
+	for cur := b; cur != nil; cur = cur.Idom() {
+		id := cur.Idom()
+		if id == nil {
+			return false
+		}
+		for si, s := range id.Succs {
+			if s != cur {
+				continue
+			}
+			cond, truth, ok := core.IfEdge(id, si)
+			if !ok {
+				continue
+			}
+			if x, eqNil, ok := core.NilCompare(cond); ok && x == errV && eqNil == truth {
+				// the nil edge must be the only way into cur
+				if len(cur.Preds) == 1 {
+					return true
+				}
+			}
+		}
+	}
+	return false
+}
+
+// lookupAssumed finds a reviewed assumption for a construct key. Table keys may contain '*' (any text), so that an
+// entry names the function, the obligation kind and the shape of the expression rather than local variable names.
+func lookupAssumed(assumed map[string]string, key string) (string, bool) {
+	if r, ok := assumed[key]; ok {
+		return r, true
+	}
+	var pats []string
+	for p := range assumed {
+		if strings.Contains(p, "*") {
+			pats = append(pats, p)
+		}
+	}
+	sort.Strings(pats)
+	for _, p := range pats {
+		parts := strings.Split(p, "*")
+		rest := key
+		ok := strings.HasPrefix(rest, parts[0])
+		if ok {
+			rest = rest[len(parts[0]):]
+			for i := 1; i < len(parts) && ok; i++ {
+				if i == len(parts)-1 {
+					ok = strings.HasSuffix(rest, parts[i])
+					break
+				}
+				j := strings.Index(rest, parts[i])
+				if j < 0 {
+					ok = false
+					break
+				}
+				rest = rest[j+len(parts[i]):]
+			}
+		}
+		if ok {
+			return assumed[p], true
+		}
+	}
+	return "", false
 }
